@@ -1,6 +1,6 @@
 (* C10 — property theorems only: each restates the full statement and is closed by the lemma proved in Proofs/. *)
 From Coq Require Import ZArith List Bool.
-From NPS Require Import ListAux PySlice NumpySem Scatter BuildIdx XorBroadcast View Index Assign Reduce Scan RaOps Heap Hash HashRun BitArr RLE RLEOps RLE2d DataClass RowsSpec AssignSpec MapSpec Denote HeapProof.
+From NPS Require Import ListAux PySlice NumpySem Scatter BuildIdx XorBroadcast View Index Assign Reduce Scan RaOps Heap Hash HashRun BitArr RLE RLEOps RLE2d DataClass RowsSpec AssignSpec MapSpec Denote HeapProof HeapRun HeapRunProof.
 Import ListNotations.
 Open Scope Z_scope.
 
@@ -30,3 +30,42 @@ Theorem C10_C10_partial :
        firstn i out' = firstn i out /\ skipn (S i) out' = skipn i out.
 Proof. exact C10_partial. Qed.
 Print Assumptions C10_C10_partial.
+
+Theorem C10_apply_hsel_natural :
+  forall (X Y : Type) (f : X -> Y) (s : hsel) (r : list (list X)),
+       apply_hsel Y s (map (map f) r) = map (map f) (apply_hsel X s r).
+Proof. exact apply_hsel_natural. Qed.
+Print Assumptions C10_apply_hsel_natural.
+
+Theorem C10_safe_runb_iff :
+  forall (A : Type) (dflt : A) (sel : Type)
+         (apply_sel : forall X : Type, sel -> list (list X) -> list (list X)) (ops : list (op A sel))
+         (h : heap A), safe_runb A dflt sel apply_sel h ops = true <-> safe_run A dflt sel apply_sel h ops.
+Proof. exact safe_runb_iff. Qed.
+Print Assumptions C10_safe_runb_iff.
+
+Theorem C10_C10_partial_concrete :
+  forall (A : Type) (dflt : A) (ops : list (op A hsel)) (i x : nat),
+       (i <= length ops)%nat ->
+       safe_runb A dflt hsel apply_hsel (empty_heap A) ops = true ->
+       safe_runb A dflt hsel apply_hsel (empty_heap A) (insert_read A hsel i x ops) = true ->
+       let out := run A dflt hsel apply_hsel (empty_heap A) ops in
+       let out' := run A dflt hsel apply_hsel (empty_heap A) (insert_read A hsel i x ops) in
+       firstn i out' = firstn i out /\ skipn (S i) out' = skipn i out.
+Proof. exact C10_partial_concrete. Qed.
+Print Assumptions C10_C10_partial_concrete.
+
+Theorem C10_heap_run_is_value_semantics :
+  forall (A : Type) (dflt : A) (ops : list (op A hsel)),
+       safe_runb A dflt hsel apply_hsel (empty_heap A) ops = true ->
+       run A dflt hsel apply_hsel (empty_heap A) ops = vrun A dflt hsel apply_hsel [] ops.
+Proof. exact heap_run_is_value_semantics. Qed.
+Print Assumptions C10_heap_run_is_value_semantics.
+
+Theorem C10_C10_refuted :
+  exists (ops : list (op Z hsel)) (i x : nat),
+         (i <= length ops)%nat /\
+         skipn (S i) (run Z 0 hsel apply_hsel (empty_heap Z) (insert_read Z hsel i x ops)) <>
+         skipn i (run Z 0 hsel apply_hsel (empty_heap Z) ops).
+Proof. exact C10_refuted. Qed.
+Print Assumptions C10_C10_refuted.
